@@ -130,3 +130,42 @@ Definition run_conc (prop : N) (cs : list run_conc_case) : list (list N) :=
      | 0 => []
      | cl => [[fst ic; 0; 1; cl; 0; 0]]
      end) (combine (map N.of_nat (seq 1 (length cs))) cs)).
+
+(* same-subscriber race rounds (C01 "under concurrent callers"): in every round 2..16 goroutines
+   leave a spinning barrier together and call Allocate for ONE fresh subscriber of one real pool
+   object while a background goroutine allocates and releases other subscribers.  Recorded: every
+   distinct value returned in the round, what the pool holds for the subscriber afterwards, the
+   statistics and the number of further allocations until exhaustion.  The Spec requires
+     C01: all returns of a round equal, the table holds exactly that unit (clause 2), the units of
+          different subscribers pairwise distinct (0) and usable (1);
+     C05: allocated figure = number of holders (6), holders + still obtainable units = capacity (3:
+          a unit marked taken that nobody holds is a leak).
+   case = ((tag, numbers), [(holder, distinct returns, table)], (allocated, has_stats), obtainable) *)
+Definition run_race_case := ((N * list N) * list (N * list N * list N) * (N * N) * N)%type.
+Fixpoint lists_eqb (a b : list N) : bool :=
+  match a, b with
+  | [], [] => true
+  | x :: a', y :: b' => (x =? y) && lists_eqb a' b'
+  | _, _ => false
+  end.
+Definition race_verdict (prop : N) (c : run_race_case) : N :=      (* 0 = fine, else clause + 1 *)
+  let '((tag, a), rounds, (al, has), free) := c in
+  let base := hd 0 a in
+  let cfg := conc_scfg prop tag a in
+  let table := map (unb base) (concat (map snd rounds)) in
+  let holders := N.of_nat (length (filter (fun r => negb (match snd r with [] => true | _ => false end)) rounds)) in
+  if prop =? 1 then
+    if negb (forallb (fun r => (N.of_nat (length (snd (fst r))) <=? 1) && lists_eqb (snd (fst r)) (snd r)) rounds) then 3
+    else if negb (nodupb table) then 1
+    else if negb (forallb (sc_usable cfg) table) then 2
+    else 0
+  else
+    if negb (has =? 0) && negb (al =? holders) then 7
+    else if negb (holders + free =? sc_cap cfg) then 4
+    else 0.
+Definition run_race (prop : N) (cs : list run_race_case) : list (list N) :=
+  concat (map (fun ic : N * run_race_case =>
+     match race_verdict prop (snd ic) with
+     | 0 => []
+     | cl => [[fst ic; 0; 1; cl; 0; 0]]
+     end) (combine (map N.of_nat (seq 1 (length cs))) cs)).
